@@ -53,6 +53,24 @@ ResetStep == /\ IsEv("reset")
              /\ bad' = bad
              /\ scen' = IF Has(Rec[l], "id") THEN Rec[l].id ELSE scen + 1
 
+\* Branching trace specs (see Report below): every step consumes exactly one record, so under TLC's
+\* breadth-first search all branches reach a "reset" record at the same level.  A new scenario starts
+\* from scratch there, so a branch that arrives with at least as many failed checks as one that
+\* arrived before it can never end up better and is cut (state constraint; TLC register 2 holds
+\* <<position, fewest failed checks seen at that position>>; needs -workers 1 and the default FIFO
+\* state queue).  Without this every wrongly guessed branch lives on to the end of the file and the
+\* number of branches doubles with every further guess.
+ASSUME TLCSet(2, <<0, 0>>)
+
+PruneAtReset ==
+    IF l > 1 /\ More /\ Rec[l].ev = "reset"
+    THEN LET r == TLCGet(2)
+             c == Cardinality(bad)
+         IN IF r[1] # l THEN TLCSet(2, <<l, c>>)
+            ELSE IF c >= r[2] THEN FALSE
+            ELSE TLCSet(2, <<l, c>>)
+    ELSE TRUE
+
 Finished == l = Len(Rec) + 1
 
 \* Invariant (always TRUE): writes the verdict when the file has been consumed.  A trace spec may
